@@ -4,7 +4,7 @@ import SciVerif.Tie.Pins
 /-! Tie A obligations for C01 on the current source. -/
 namespace SciVerif.Tie
 -- functions the model relies on without an obligation of its own naming them (pinned by bin/mkpins):
--- PIN-ALSO: Scipipe.FileIP_TempPath Scipipe.Task_createDirs Scipipe.Task_ensureAllOutputsExist
+-- PIN-ALSO: Scipipe.FileIP_TempPath Scipipe.Task_createDirs Scipipe.Task_ensureAllOutputsExist Scipipe.Task_tempDirsExist
 open SciVerif.TaskFS
 
 
@@ -20,6 +20,7 @@ theorem c01_on_source (c : Cfg) (pre : Nat → Option File) (n p : Nat) (f : Fil
 
 theorem generated_all_ops_known_c01 : taskSemKnown = true := by decide
 
+
 -- BEGIN PINS (written by bin/mkpins; do not edit by hand)
 /-- the Go functions this property's model and obligations were written against have exactly the
 pinned skeletons (SHA-256 prefix of the atom list) -/
@@ -33,11 +34,12 @@ theorem pinned_skeletons_c01 :
      ("Scipipe.Task_ensureAllOutputsExist", "02a49c3c493368f3"),
      ("Scipipe.Task_executeCommand", "98e77d849c0638cb"),
      ("Scipipe.Task_finalizePaths", "9cd0530d4e86fa92"),
-     ("Scipipe.Task_formatCommand", "ccbe98735ce5c7d6")] = true := by decide
+     ("Scipipe.Task_formatCommand", "ccbe98735ce5c7d6"),
+     ("Scipipe.Task_tempDirsExist", "be2c7ee34f64913e")] = true := by decide
 -- END PINS
 
 end SciVerif.Tie
-#print axioms SciVerif.Tie.generated_all_ops_known_c01
 #print axioms SciVerif.Tie.pinned_skeletons_c01
+#print axioms SciVerif.Tie.generated_all_ops_known_c01
 #print axioms SciVerif.Tie.generated_wf_c01
 #print axioms SciVerif.Tie.c01_on_source
